@@ -148,6 +148,27 @@ theorem C02_usable {M : Type} {f : Framer M} (hs : PrefixStable f) (chunks : Lis
     feedAllFrom f (feedAll f chunks) [next] = feedAllFrom f (feed f [] chunks.flatten) [next] :=
   feedAll_then hs chunks next hok
 
+/-- **sends between reads**: any sequence of operations on one connection (reads
+    interleaved with sends of the application, e.g. RAOP's periodic `/feedback` request
+    while a response is half received) delivers what the unsplit stream delivers — in the
+    model a send does not touch the receive state; the harness interleaves real sends -/
+theorem C02_sends_irrelevant {M : Type} {f : Framer M} (hs : PrefixStable f) (ops : List Op)
+    (hok : NoErr f (Op.recvs ops)) :
+    runOps f ⟨[], [], none⟩ ops = feed f [] (Op.recvs ops).flatten := by
+  rw [runOps_eq]
+  exact feedAll_concat hs _ hok
+
+/-- **several live connections**: however the event loop interleaves the reads of
+    connections `0,1,2,…`, connection `i` delivers exactly what its own bytes, unsplit,
+    deliver (no state is shared between connection objects) -/
+theorem C02_connections_independent {M : Type} {f : Framer M} (hs : PrefixStable f)
+    (sched : List (Nat × Bytes)) (i : Nat)
+    (hok : NoErr f ((sched.filter (fun p => p.1 = i)).map (·.2))) :
+    runSched f (fun _ => ⟨[], [], none⟩) sched i
+      = feed f [] ((sched.filter (fun p => p.1 = i)).map (·.2)).flatten := by
+  rw [runSched_eq]
+  exact feedAll_concat hs _ hok
+
 /-- whatever stateful handler consumes the frames (decrypt with a nonce counter, protobuf
     / plist parse, dispatch to the listener): its outputs are the same -/
 theorem C02_delivered {M σ D : Type} {f : Framer M} (hs : PrefixStable f)
@@ -214,6 +235,14 @@ example : feedAll httpClient
        [10, 97, 98, 99, 82]]
     = ⟨[([72, 84, 84, 80, 47, 49, 46, 49, 32, 50, 48, 48, 32, 79, 75, 13, 10, 67, 111, 110, 116, 101, 110, 116, 45, 76, 101, 110, 103, 116, 104, 58, 32, 51],
          [97, 98, 99])], [82], none⟩ := by decide
+
+/-- two MRP connections interleaved byte-wise, with a send in between on the first -/
+example : runSched mrp (fun _ => ⟨[], [], none⟩) [(0, [2]), (1, [1]), (0, [0xAA]), (1, [7, 3]), (0, [0xBB])] 0
+      = ⟨[[0xAA, 0xBB]], [], none⟩
+    ∧ runSched mrp (fun _ => ⟨[], [], none⟩) [(0, [2]), (1, [1]), (0, [0xAA]), (1, [7, 3]), (0, [0xBB])] 1
+      = ⟨[[7]], [3], none⟩
+    ∧ runOps mrp ⟨[], [], none⟩ [.recv [2], .send [9], .recv [0xAA], .send [], .recv [0xBB]]
+      = ⟨[[0xAA, 0xBB]], [], none⟩ := by decide
 
 /-- well-formed HTTP message exists (header `A`, body 2 bytes, `clen = 2`) -/
 example : HttpWF ⟨fun _ => some 2, fun _ => true⟩ ([65], [1, 2]) :=
